@@ -7,7 +7,7 @@ D=$(mktemp -d /tmp/hv_mut.XXXXXX)
 rsync -a --exclude .git --exclude '__pycache__' /repo/ "$D/"
 ( cd "$D" && patch -p1 -s < "$PATCH" ) || { echo "patch failed"; rm -rf "$D"; exit 9; }
 cd "$(dirname "$0")/.."
-VERIF_REPO="$D" ./check "$PROP" --tier "$TIER" 2>&1 | grep -v "WARNING conda" | tail -12
+VERIF_REPO="$D" VERIF_EVIDENCE_DIR="$D/.evidence" ./check "$PROP" --tier "$TIER" 2>&1 | grep -v "WARNING conda" | tail -12
 RC=${PIPESTATUS[0]}
 rm -rf "$D"
 echo "mutant exit=$RC"
